@@ -1122,7 +1122,7 @@ theorem provides_of_calls (c : Cfg) (ss : List MetaSetter) (bt : Nat) (p a : Byt
 /-! ### `Valid` from the inputs -/
 
 /-- **`Valid` from the builder state**: NUL-free Rust strings, numbers of the width of their Rust types, a clamped build time
-and hex digests, and `102 * (2 * weight + 608 + |digests|) + 16 < 2^31` — with `cfgWeight` the total length of the strings the
+and hex digests, and `102 * (2 * weight + 1008 + |digests|) + 16 < 2^31` — with `cfgWeight` the total length of the strings the
 state holds plus a constant per file / dependency / changelog entry — give a header `from_entries` lays out canonically below
 2 GiB. (102 = number of slots; every single record is at most `slotBound x` long, `Bld.slots_ok`.) -/
 theorem valid_of_cfg (x : Ctx) (ok : CfgOk x.c) (hbt : x.bt < 4294967296) (hp : RustStr x.payloadShaHex)
@@ -1165,8 +1165,8 @@ theorem valid_of_inputs (sha256 : Bytes → Bytes) (valid : Bytes → Bool) (nam
   have e1 := hlen payload; have e2 := hlen archive
   have d1 := hdig payload; have d2 := hdig archive
   have hb : slotBound (mkCtx s.cfg now (Sign.shaHex sha256 payload) (Sign.shaHex sha256 archive)) =
-      2 * cfgWeight s.cfg + (Sign.shaHex sha256 payload).length + (Sign.shaHex sha256 archive).length + 600 := rfl
-  have hS : slotBound (mkCtx s.cfg now (Sign.shaHex sha256 payload) (Sign.shaHex sha256 archive)) ≤ 21000728 := by
+      2 * cfgWeight s.cfg + (Sign.shaHex sha256 payload).length + (Sign.shaHex sha256 archive).length + 1000 := rfl
+  have hS : slotBound (mkCtx s.cfg now (Sign.shaHex sha256 payload) (Sign.shaHex sha256 archive)) ≤ 21001128 := by
     rw [hb, e1, e2]; omega
   generalize slotBound (mkCtx s.cfg now (Sign.shaHex sha256 payload) (Sign.shaHex sha256 archive)) = S at hS ⊢
   omega
